@@ -8,6 +8,7 @@ int  tk_keylog_find(const char *label, unsigned char *out);
 int  tk13_keys_from_secret(tk13_keys_t *k, uint16_t suite, const unsigned char *secret, int hashlen);
 int  tk13_open(tk13_keys_t *k, const unsigned char *rec, int reclen, unsigned char *pt, int *itype);
 int  tk13_seal(tk13_keys_t *k, int itype, const unsigned char *pt, int ptlen, unsigned char *rec);
+int  tk13_seal_raw(tk13_keys_t *k, const unsigned char *inner, int innerlen, unsigned char *rec); /* TLSInnerPlaintext given as is (may be empty) */
 int  tk13_finished(const tk13_keys_t *k, const unsigned char *thash, unsigned char *vd);
 void tk_transcript_hash(int hashlen, const buf_t *msgs, unsigned char *out);
 int  tk_split_msgs(const unsigned char *p, int len, tk_msg_t *out, int max);
